@@ -11,9 +11,11 @@ Inv_C01 == C01_Solvent(w)
 Inv_C03 == C03_ReportedRates(w, obs)
 Inv_C05 == C05_ParamsInRange(w)
 Inv_C06 == C06_Recognition(w, obs)
-Inv_C07 == C07_ClaimsSumToBatch(w, g) /\ C07_QueriesFaithful(w, obs)
+\* (C07_QueriesFaithful - the WithdrawableUnbonded query - and C14_AccruedQuery - the AccruedRewards query - are part of the
+\* conformance relation, obs = ObsOf(w) in KrpTrace, not of the properties: neither statement names these two queries)
+Inv_C07 == C07_ClaimsSumToBatch(w, g)
 Inv_C08 == C08_Shape(w)
-Inv_C14 == C14_Solvent(w, g) /\ C14_AccruedQuery(w, obs)
+Inv_C14 == C14_Solvent(w, g)
 Inv_C15 == C15_Proportional(w, g)
 Inv_C16 == C16_Mirror(w)
 Inv_C17 == C17_KeeperRate(w)
